@@ -5,13 +5,15 @@ of C08 (conservation, identity, per-flow order, drained).  Models: coq/Elem/Wire
 kinds:  'wire'   one Wire, scripted delay_dist and random.uniform, bursty arrivals from 1-3 drivers; optionally stopped early
                  (case["until"]); optionally RECONFIGURED BETWEEN PACKETS (case["reconf"]: loss_rate / delay_dist / out assigned
                  at some instant; the value in force when run() takes / hands over a packet counts); optionally the same Packet
-                 objects enter again later (a retransmission) once their earlier traversal is over
+                 objects enter again (a retransmission) at any time, also while an earlier traversal of the object is still
+                 waiting in the store (each traversal keeps its own entry instant since fix 965d42d)
         'cable'  a real Cable between two devices, traffic in both directions at once (40%: bursts queued in both directions at
                  the same time); both wires share the same delay_dist callable and the same `random`, so the scripted draws are
                  consumed in global order
         'multi'  several wires in one Environment: shape 'hub' = a real Hub with three wires as ports (ONE Packet object is put
-                 into two wires at the same instant and must be delayed by each independently), shape 'chain' = two wires in
-                 sequence (two traversals of one object); each wire is compared with its own wire automaton on its projection
+                 into two wires at the same instant and must be delayed by each independently), shape 'hubfwd' = the same with
+                 one endpoint forwarding the object into a further wire while it may still wait in another port wire, shape
+                 'chain' = two wires in sequence (two traversals of one object); each wire is compared with its own wire automaton on its projection
 all kinds: case["config"] = ctor | assign (constructed with OTHER values -- a decoy delay_dist that must never be called, another
            loss rate and id -- then the public attributes assigned before any traffic) | bare (constructed without the optional
            arguments, configured by assignment); every next hop records the wire's public state from inside its put()
@@ -280,9 +282,11 @@ class WirePart:
         "C10": ("kind 'wire' (66%): random bursty workloads from 1-3 driver processes on a dyadic time lattice (arrivals coincide "
                 "with deliveries), delay scripts constant / decreasing / zero / random, loss rate None/0/0.25/0.5/1 with scripted "
                 "uniform draws (values equal to the rate included), a quarter stopped early, 15% reconfigured between packets "
-                "(loss_rate / delay_dist / out), 12% with Packet objects re-entering later; kind 'cable' (22%): a real Cable with "
+                "(loss_rate / delay_dist / out), 20% with Packet objects re-entering the wire at any time (also while an earlier "
+                "traversal of the same object is still queued); kind 'cable' (22%): a real Cable with "
                 "traffic in both directions (40% with bursts queued in both directions at once), shared scripted draws; kind "
-                "'multi' (12%): a real Hub putting one object into two wires, or two wires in sequence; 28% of all cases configured "
+                "'multi' (12%): a real Hub putting one object into two wires (half of them with an endpoint forwarding it into a further "
+                "wire), or two wires in sequence; 28% of all cases configured "
                 "by assignment after construction (16% over decoy constructor values, 12% without optional arguments); 8% followed "
                 "by the canary scenario; non-trivial = at least 3 packets and at least one packet dequeued later than it arrived; "
                 "distinct by hash of the case"),
@@ -306,19 +310,15 @@ class WirePart:
         "C08": ["packet identity is the Python object identity recorded by the harness taps (uid = creation index)"],
     }
     assumptions = {
-        "C10": ["a Packet object is not put into any wire again while an earlier traversal of it is still waiting in a wire's store",
-                "'with probability p' is read as: lost iff the uniform draw is < loss_rate (definition of a uniform draw); "
+        "C10": ["'with probability p' is read as: lost iff the uniform draw is < loss_rate (definition of a uniform draw); "
                 "independence of the draws is a property of `random`, not of the wire",
                 "admissibility of the observed executions (the kernel runs everything due at an instant before the clock moves) is "
                 "checked on every observed execution, proved for the kernel model under C01"],
-        "C08": ["a Packet object is not put into any wire again while an earlier traversal of it is still waiting in a wire's store "
-                "(Packet.current_time is a per-object stamp: see the finding reported for C10)"],
+        "C08": [],
     }
     partial = {"C10": ["the theorems of Props/C10.v quantify over a loss rate fixed for the whole execution; reconfiguration between "
                        "packets (loss_rate / delay_dist / out assigned while packets are inside) is covered by the per-action "
-                       "correspondence (wire_agree_cfg: the loss rate in force at each action) and by the monitor, not by a theorem",
-                       "the same Packet object re-entering a wire while an earlier traversal is still queued is outside the model "
-                       "(the code shares one stamp per object; reported as a finding) and is kept out of the generated cases"]}
+                       "correspondence (wire_agree_cfg: the loss rate in force at each action) and by the monitor, not by a theorem"]}
 
     # ---- generation ---------------------------------------------------------------------------------
     def _delays(self, rng, n, style=None):
@@ -374,10 +374,10 @@ class WirePart:
             return {"kind": "cable", "workload": w1, "workload2": w2, "delays": delays, "loss": loss, "uniforms": uniforms,
                     "style": style, "pre": rng.random() < 0.3, "config": config, "canary": canary, "both": both}
         if r < 0.34:
-            shape = rng.choice(["hub", "chain"])
-            nw = 3 if shape == "hub" else 2
+            shape = rng.choice(["hub", "chain", "hubfwd", "hubfwd"])
+            nw = {"hub": 3, "chain": 2, "hubfwd": 4}[shape]
             w = ec.gen_workload(rng, flows=(0, 1, 2), n_max=6)
-            if shape == "hub":
+            if shape != "chain":
                 for sp in w["packets"].values():
                     sp["src"] = rng.choice(["e0", "e1", "e2"])
             n = len(w["packets"])
@@ -387,7 +387,7 @@ class WirePart:
                 d, _st = self._delays(rng, n)
                 dl.append([cf.qjson(x) for x in d])
             return {"kind": "multi", "shape": shape, "workload": w, "delays": dl, "loss": None if loss is None else cf.qjson(loss),
-                    "uniforms": [cf.qjson(rng.choice(UNIFORMS)) for _ in range(2 * n)], "style": "rand",
+                    "uniforms": [cf.qjson(rng.choice(UNIFORMS)) for _ in range(3 * n)], "style": "rand",
                     "pre": rng.random() < 0.3, "config": rng.choice(["ctor", "ctor", "assign", "bare"]), "canary": canary}
         w = ec.gen_workload(rng, flows=(0, 1, 2), n_max=10)
         n = len(w["packets"])
@@ -396,10 +396,10 @@ class WirePart:
         if rng.random() < 0.25:
             case["until"] = cf.qjson(rng.choice([F(1, 2), F(1), F(2), F(3), F(5), F(8)]))
         reput = []
-        if rng.random() < 0.12:
+        if rng.random() < 0.2:
             uids = sorted(int(u) for u in w["packets"])
-            reput = [rng.choice(uids) for _ in range(rng.randint(1, 3))]
-            extra = len(reput)
+            reput = [[rng.choice(uids) for _ in range(rng.randint(1, 2))] for _ in range(rng.randint(1, 2))]
+            extra = sum(len(b) for b in reput)
         delays, loss, uniforms, style = self._draws(rng, n + extra)
         case.update({"delays": delays, "loss": loss, "uniforms": uniforms, "style": style})
         if rng.random() < 0.15:
@@ -418,10 +418,16 @@ class WirePart:
                     rc.append({"t": cf.qjson(t), "late": rng.choice([0, 1, 2]), "set": {"out": "out2"}})
             case["reconf"] = rc
         if reput:
-            # the SAME Packet objects enter the wire again (a retransmission) once every earlier traversal is over
-            tmax = max(F(t) for d in w["drivers"] for (t, _) in d["bursts"])
+            # the SAME Packet objects enter the wire again (a retransmission): at any time, also while an earlier traversal of
+            # the object is still waiting in the store or propagating (each traversal has its own entry instant: fix 965d42d)
+            times = sorted(F(t) for d in w["drivers"] for (t, _) in d["bursts"])
             bound = sum(max(F(a), F(b)) for a, b in zip(delays, case.get("delays_b", delays)))
-            w["drivers"].append({"late": rng.choice([0, 1]), "bursts": [[cf.qjson(tmax + bound + 1), reput]], "reput": True})
+            t, bursts = rng.choice(times), []
+            for b in reput:
+                t = (times[-1] + bound + 1) if rng.random() < 0.2 else t + rng.choice(ec.LATTICE[1:6])
+                bursts.append([cf.qjson(t), b])
+            bursts.sort(key=lambda x: F(x[0]))
+            w["drivers"].append({"late": rng.choice([0, 1, 2]), "bursts": bursts, "reput": True})
         return case
 
     # ---- implementation -----------------------------------------------------------------------------
@@ -545,8 +551,8 @@ class WirePart:
     def _run_multi(self, case, env, h, wmod, S):
         w = case["workload"]
         h.add_packets(w["packets"])
-        hub_shape = case["shape"] == "hub"
-        nw = 3 if hub_shape else 2
+        hub_shape = case["shape"] in ("hub", "hubfwd")
+        nw = self._nwires(case)
         target = Via(None)
 
         def drivers():
@@ -557,12 +563,17 @@ class WirePart:
         wires = [_build(wmod, env, "wire", S["config"], S["scripts"][f"w{i + 1}"], S["loss"], S["decoy"]) for i in range(nw)]
         if hub_shape:
             from onl.netdev.hub import Hub
-            eps = [HTap(h, f"e{i}") for i in range(nw)]
-            hub = Hub(env, eps, wires)              # one Packet object is put into every wire but the sender's
+            eps = [HTap(h, f"e{i}") for i in range(3)]
+            hub = Hub(env, eps, wires[:3])          # one Packet object is put into every wire but the sender's
             for e, wi in zip(eps, wires):
                 e.feeder = wi
             entry = hub
             wiring_ok = all(wi.out is e for e, wi in zip(eps, wires)) and all(e.out is hub for e in eps)
+            if case["shape"] == "hubfwd":           # endpoint e1 forwards what it receives into a further wire
+                far = HTap(h, "far")
+                far.feeder = wires[3]
+                wires[3].out = far
+                eps[1].nxt = wires[3]
         else:
             out = HTap(h, "out")
             mid = HTap(h, "mid", nxt=wires[1])      # wire1 -> (relay) -> wire2 -> out: two traversals in sequence
@@ -594,7 +605,14 @@ class WirePart:
 
     @staticmethod
     def _nwires(case):
-        return {"wire": 1, "cable": 2}.get(case["kind"]) or (3 if case["shape"] == "hub" else 2)
+        return {"wire": 1, "cable": 2}.get(case["kind"]) or {"hub": 3, "chain": 2, "hubfwd": 4}[case["shape"]]
+
+    @staticmethod
+    def _feeds(case):
+        """tap tag -> wire the tap forwards the very same object into"""
+        if case["kind"] != "multi":
+            return {}
+        return {"chain": {"mid": 1}, "hubfwd": {"e1": 3}}.get(case["shape"], {})
 
     @staticmethod
     def _cfgs(case):
@@ -624,7 +642,9 @@ class WirePart:
             return cfg["out"]
         if k == "cable":
             return ["dev2", "dev1"][i]
-        return f"e{i}" if case["shape"] == "hub" else ["mid", "out"][i]
+        if case["shape"] == "chain":
+            return ["mid", "out"][i]
+        return f"e{i}" if i < 3 else "far"
 
     def _script_of(self, case, i, cfg):
         return f"w{i + 1}" if case["kind"] == "multi" else cfg["delays"]
@@ -689,9 +709,10 @@ class WirePart:
                 if len(own) != len([o for o in outs if o[0] == "out"]):
                     return None, f"a delivery to an unexpected next hop in {e[:2]}"
                 per[i] = (wa, own)
-                if case["kind"] == "multi" and case["shape"] == "chain" and i == 0:
-                    for o in own:
-                        per[1] = (f"WPut {pk(o[2])}", [])
+                for o in own:
+                    j = self._feeds(case).get(o[1])
+                    if j is not None:
+                        per[j] = (f"WPut {pk(o[2])}", [])
                 cact = f"CA D{i + 1} ({wa})"
                 couts = own
             else:
@@ -752,7 +773,8 @@ class WirePart:
         iu = 0
         nd = {k: 0 for k in vals}
         prev_w = [[0, 0] for _ in range(nw)]
-        chain = case["kind"] == "multi" and case["shape"] == "chain"
+        feeds = self._feeds(case)
+        last_put = {}                                  # uid -> instant the object last entered ANY wire (packet.current_time)
         for e in obs["log"]:
             smp = e[-1]
             cfg = cfgs[min(smp["ep"], len(cfgs) - 1)]
@@ -766,6 +788,7 @@ class WirePart:
                 touched = self._receivers(case, e[1])
                 for i in touched:
                     W[i]["arr"].append((e[1], now))
+                last_put[e[1]] = now
             elif e[0] == "step":
                 base, i = self._label_wire(e[1][1])
                 i = min(i, nw - 1)
@@ -788,10 +811,12 @@ class WirePart:
                         continue
                     probe = o[5] if len(o) > 5 else None
                     W[i]["del"].append((o[2], now, o[1], o[3], o[4], probe, self._downstream(case, i, cfg),
-                                        len(W[i]["arr"]), len(W[i]["deq"])))
-                    if chain and i == 0 and o[1] == "mid":
-                        W[1]["arr"].append((o[2], now))
-                        touched.append(1)
+                                        len(W[i]["arr"]), len(W[i]["deq"]), last_put.get(o[2])))
+                    j = feeds.get(o[1])
+                    if j is not None:
+                        W[j]["arr"].append((o[2], now))
+                        last_put[o[2]] = now
+                        touched.append(j)
             else:
                 continue
             got = {k: smp["nd"].get(k) for k in nd}
@@ -864,8 +889,7 @@ class WirePart:
                 pr = x[5]
                 if pr is None:
                     continue
-                k = x[8] - 1                               # the traversal being handed over is the last one dequeued
-                a_k = arr[k][1] if 0 <= k < len(arr) else None
+                a_k = x[9]                                 # packet.current_time: one stamp per object = its LAST entry into a wire
                 bad = []
                 if pr[0] != x[7]:
                     bad.append(f"packets_rec = {pr[0]} after {x[7]} put() calls")
@@ -875,7 +899,7 @@ class WirePart:
                 if pr[2] != queued:
                     bad.append(f"the packet handed over occurs {pr[2]} time(s) in store.items, {queued} later traversal(s) of it are queued")
                 if a_k is not None and (pr[3] is None or F(pr[3]) != a_k):
-                    bad.append(f"packet.current_time = {pr[3]}, the packet entered this wire at {a_k}")
+                    bad.append(f"packet.current_time = {pr[3]}, the packet object last entered a wire at {a_k}")
                 if not pr[4]:
                     bad.append("wire.out is not the object whose put() is being called")
                 if bad:
@@ -973,7 +997,7 @@ class WirePart:
             for rc in case.get("reconf", []):
                 keys.append("wire:reconfigured-between-packets:" + "/".join(sorted(rc["set"])))
             if any(d.get("reput") for d in case["workload"]["drivers"]):
-                keys.append("wire:same-packet-object-re-enters-later")
+                keys.append("wire:same-packet-object-re-enters")
         if k == "multi":
             keys.append("multi:" + case["shape"])
         if k == "cable" and obs.get("log"):
